@@ -661,10 +661,15 @@ Section IssuerClauses.
     confirm_expected h o g d i t sc sg data = is_ok (call_is_claim_valid c w i d t sc sg data).
   Proof.
     unfold confirm_expected, call_is_claim_valid. rewrite is_issuer_model. unfold the_issuer.
-    destruct (aget N.eqb i (w_issuers w)) as [s|] eqn:Es; cbn [of_option is_ok bind andb]; [|reflexivity].
+    destruct (aget N.eqb i (w_issuers w)) as [s|] eqn:Es; cbn [of_option is_ok bind andb negb];
+      [| cbn [cfg_of c_other]; destruct (foreign_confirms (h_foreign h) i sc); reflexivity].
     rewrite is_claim_valid_bool. destruct (extract_sig sc sg) as [sd|]; [|reflexivity].
     rewrite (granted_model i s _ _ _ Es), (go_rev w g Hg i s (d, t, data) Es), (go_nonce w g Hg i s d t Es). reflexivity.
   Qed.
+
+  Lemma confirm_expected_now o1 o2 g0 d i t sc sg data : o_now o1 = o_now o2 ->
+    confirm_expected h o1 g0 d i t sc sg data = confirm_expected h o2 g0 d i t sc sg data.
+  Proof. intros E. unfold confirm_expected. rewrite E. reflexivity. Qed.
 
   Lemma cell_ok_model d s i t : cell_ok h o g d i t (observe_cell c w d s i t) = true.
   Proof.
@@ -776,6 +781,26 @@ Proof. unfold len_is. rewrite map_length. apply Nat.eqb_refl. Qed.
 Lemma forallb_map_true {A B} (f : A -> B) (P : B -> bool) l : (forall x, P (f x) = true) -> forallb P (map f l) = true.
 Proof. intros H. induction l; cbn; auto. rewrite H, IHl. reflexivity. Qed.
 
+Lemma nodup_by_NoDup {A} (e : A -> A -> bool) (He : eqb_spec e) l : NoDup l -> nodup_by e l = true.
+Proof.
+  induction 1 as [|x l Hx Hl IH]; cbn [nodup_by]; auto. rewrite IH, andb_true_r. apply negb_true_iff.
+  destruct (existsb (e x) l) eqn:E; auto. apply existsb_exists in E. destruct E as [y [Hy Ey]].
+  apply He in Ey. subst. contradiction.
+Qed.
+Lemma registry_nodup_model h ct : cti_inv ct -> registry_nodup (observe_cti h ct) = true.
+Proof.
+  intros Hi. unfold registry_nodup, observe_cti. cbn [co_topics co_issuers co_tissuers co_itopics].
+  rewrite !andb_true_iff. repeat split.
+  - apply (nodup_by_NoDup _ Z_eqb_spec). apply (ri_topics_nodup ct Hi).
+  - apply (nodup_by_NoDup _ N_eqb_spec). apply (ri_issuers_nodup ct Hi).
+  - apply forallb_map_true. intros t. unfold get_claim_topic_issuers, res_nodup.
+    pose proof (ri_tiss_nodup ct Hi t) as H. unfold tiss in H.
+    destruct (aget Z.eqb t (ct_tissuers ct)); cbn [of_option]; [|reflexivity]. apply (nodup_by_NoDup _ N_eqb_spec). exact H.
+  - apply forallb_map_true. intros i. unfold get_trusted_issuer_claim_topics, res_nodup.
+    pose proof (ri_itop_nodup ct Hi i) as H. unfold itop in H.
+    destruct (aget N.eqb i (ct_itopics ct)); cbn [of_option]; [|reflexivity]. apply (nodup_by_NoDup _ Z_eqb_spec). exact H.
+Qed.
+
 Lemma shape_ok_model h w : shape_ok h (observe h w) = true.
 Proof.
   unfold shape_ok, observe. cbn [o_ctis o_irss o_idents o_issuers o_ver vo_verify].
@@ -807,6 +832,10 @@ Proof.
     + apply irs_ok_model. apply (Hr a s E).
     + apply irs_ok_model. apply irs_inv_init.
   - apply keys_ok_model; auto.
+  - cbn [observe o_ctis]. apply forallb_map_true. intros a.
+    unfold get_or. destruct (aget N.eqb a (w_ctis w)) as [s|] eqn:E.
+    + apply registry_nodup_model. apply (wi_cti w Hw a s E).
+    + apply registry_nodup_model. apply cti_inv_init.
 Qed.
 
 (* ---------------- calls: positional lists after an update ---------------- *)
@@ -1387,7 +1416,16 @@ Section CallModel2.
       destruct (the_ident w d) as [s|] eqn:Es; cbn [bind] in *; [|fail_case].
       destruct (add_claim s cl _) as [[s' id]|] eqn:Ea; cbn [fst snd] in *; [|fail_case].
       destruct (effect_add_claim h w Hd d cl _ s s' id Es Ea (dom_set_ident h w d s s' Hd Es) Hwf) as [Eid He].
-      split3; [clock_tac | reflexivity | cbn [effect_ok]; rewrite Hwf, Eid; cbn [andb oval_eqb]; rewrite cid_eqb_refl; cbn [andb]; exact He].
+      split3; [clock_tac | | cbn [effect_ok]; rewrite Hwf, Eid; cbn [andb oval_eqb]; rewrite cid_eqb_refl; cbn [andb]; exact He].
+      cbn [answer_ok is_ok implb ghost_step].
+      assert (Hin : mem_a d (h_idents h) = true).
+      { apply mem_a_In. apply (dm_ident h w Hd). apply the_ident_get in Es. congruence. }
+      rewrite Hin. cbn [andb].
+      rewrite (confirm_expected_now h (observe h (set_ident w d s')) o g) by reflexivity.
+      rewrite (confirm_model h w g Hd Hw Hg).
+      unfold add_claim in Ea.
+      destruct (call_is_claim_valid cf w (cl_issuer cl) d (cl_topic cl) (cl_scheme cl) (cl_sig cl) (cl_data cl)) as [[]|];
+        [reflexivity | discriminate].
     - (* RemoveClaim *)
       unfold upd in *. destruct (the_ident w d) as [s|] eqn:Es; cbn [bind] in *; [|fail_case].
       destruct (remove_claim s id) as [s'|] eqn:Ea; cbn [fst snd] in *; [|fail_case].
